@@ -335,6 +335,7 @@ func c11Run(c *mon.Ctx) {
 			})
 		}
 	}
+	c11Circles(c, &item)
 	// random trees of every kind
 	n := c.Pick(3000000, 60000000)
 	for i := 0; i < n; i++ {
@@ -383,15 +384,84 @@ func c11Run(c *mon.Ctx) {
 	}
 }
 
+// c11Circles: a Circle's rectangle and validity are those of the positions of
+// its polygon approximation (what Rect() bounds); Empty() is false.
+func c11Circles(c *mon.Ctx, item *int) {
+	n := c.Pick(60000, 1500000)
+	for i := 0; i < n; i++ {
+		*item++
+		if !c.Mine(*item) {
+			continue
+		}
+		r := c.SubRng("circle", i)
+		ctr := geometry.Point{X: r.Float64()*360 - 180, Y: r.Float64()*180 - 90}
+		switch r.Intn(5) {
+		case 0: // next to the antimeridian
+			ctr.X = []float64{179.5, -179.5, 180, -180, 179.99}[r.Intn(5)]
+		case 1: // next to a pole
+			ctr.Y = []float64{89.5, -89.5, 90, -90, 89.999}[r.Intn(5)]
+		}
+		m := math.Pow(10, r.Float64()*7.3)
+		if r.Intn(12) == 0 {
+			m = []float64{0, -5, 1e-3, 2.1e7}[r.Intn(4)]
+		}
+		steps := []int{0, 3, 4, 8, 64, 65, 360}[r.Intn(7)]
+		c.SetCase(func() interface{} {
+			return map[string]interface{}{"circle_centre": []float64{ctr.X, ctr.Y}, "meters": m, "steps": steps}
+		})
+		c.Try(func() {
+			circ := geojson.NewCircle(ctr, m, steps)
+			poly, ok := circ.Polygon().(*geojson.Polygon)
+			if !ok || poly.Base() == nil || poly.Base().Exterior == nil {
+				c.Violation("circle-polygon", "Circle.Polygon() is not a polygon with an exterior", map[string]interface{}{"circle_centre": []float64{ctr.X, ctr.Y}, "meters": m, "steps": steps})
+				return
+			}
+			ext := poly.Base().Exterior
+			var ps []geometry.Point
+			for k := 0; k < ext.NumPoints(); k++ {
+				ps = append(ps, ext.PointAt(k))
+			}
+			valid := true
+			for _, q := range ps {
+				if !posValid(q) {
+					valid = false
+				}
+			}
+			c.Eval()
+			c.Count("circles_judged")
+			if !valid {
+				c.Count("circles_with_out_of_range_positions")
+			}
+			mk := func(what, got, want string) c11Case {
+				return c11Case{Path: "constructors", Object: map[string]interface{}{"circle_centre": []float64{ctr.X, ctr.Y}, "meters": m, "steps": steps}, What: what, Got: got, Want: want}
+			}
+			if len(ps) > 0 {
+				if got, want := circ.Rect(), boxOf(ps); !rectEq(got, want) {
+					c.Violation("circle-rect", "Circle.Rect() is not the bounding box of the positions of its polygon", mk("Rect", fmt.Sprint(got), fmt.Sprint(want)))
+				}
+			}
+			if got := circ.Valid(); got != valid {
+				c.Violation("circle-valid", "Circle.Valid() disagrees with the range test over the positions of its polygon", mk("Valid", fmt.Sprint(got), fmt.Sprint(valid)))
+			}
+			if circ.Empty() {
+				c.Violation("circle-empty", "Circle.Empty() is true", mk("Empty", "true", "false"))
+			}
+			if i%97 == 0 {
+				c.NonTrivial(uint64(mon.NewH().S("circle").U(math.Float64bits(ctr.X)).U(math.Float64bits(ctr.Y)).U(math.Float64bits(m))))
+			}
+		})
+	}
+}
+
 func init() {
-	must := []string{"flat_series", "parsed_under_representation_options", "exhaustive_done", "parsed_objects", "empty_objects", "invalid_objects"}
+	must := []string{"circles_judged", "circles_with_out_of_range_positions", "flat_series", "parsed_under_representation_options", "exhaustive_done", "parsed_objects", "empty_objects", "invalid_objects"}
 	for _, k := range allKinds {
 		must = append(must, "kind_"+k)
 	}
 	mon.Register(&mon.Prop{
 		ID:          "C11",
 		Rule:        "exhaustive: every position sequence of length 1..4 (thorough 5) over a 3x3 value grid, built as LineString, Polygon ring (as given / closed), MultiPoint, single-child collections and Feature; random: object trees of all kinds (depth<=3, empties mixed in, 1..200 positions) with coordinates from {in-range, tie-rich lattice, special values: -0, +-180/+-90 +-1ulp, +-1e308, +-MaxFloat64, subnormal; occasionally just out of range}, built through the constructors and, when the text is parseable, through Parse; every nested object is judged too. Non-trivial = distinct object with at least two positions in non-empty parts.",
-		Assumptions: []string{"finite coordinates only", "Circle is excluded (its rectangle is that of its polygon approximation; see C13)", "known findings F20 (hole outside the exterior's box) and F21 (empty child carrying positions) are matched by narrow predicates"},
+		Assumptions: []string{"finite coordinates only", "a Circle is judged against the positions of its polygon approximation (what Rect() bounds): rectangle and validity only, its centre is covered by C13", "known findings F20 (hole outside the exterior's box) and F21 (empty child carrying positions) are matched by narrow predicates"},
 		Run:         c11Run,
 		MustSee:     must,
 	})
